@@ -11,5 +11,8 @@ import XzVerif.Props.C08
 #print axioms Props.C08.C08_hashtable4_never_fails
 #print axioms Props.C08.C08_hashtable4_close_decodes
 #print axioms Props.C08.C08_hashtable4_flush_prefix_decodes
+#print axioms Props.C08.C08_bintree_never_fails
+#print axioms Props.C08.C08_bintree_close_decodes
+#print axioms Props.C08.C08_bintree_flush_prefix_decodes
 #print axioms Props.C08.C08_close_decodes_I
 #print axioms Props.C08.C08_writer_sequences_legal
